@@ -314,7 +314,8 @@ def obligations(tier, seed):
         if inner:
             reach_in.append(pc)
             if not auth or not rec:
-                viol.append(pc)
+                # (the statement is about an *enabled* filter: what a disabled one forwards is not its subject)
+                viol.append(z3.And(pc, z3.BitVec(f"arg1.*.{R.field_index('HostFilter', 'filter')}.discr", 64) == 1))
             else:
                 # inner.call only when from_http_request returned Some and the filter check returned true
                 a_some = ex.discr_of(auth[0].ret) == 1
@@ -326,11 +327,12 @@ def obligations(tier, seed):
         else:
             made = [e for e in evs if "{async block@" in e.callee or "boxed" in e.callee]
             (reach_400 if not rec else reach_403).append(pc)
-    if bad or not reach_in or not reach_400 or not reach_403:
+    reach_l = R.live_reach(viol, {"in": reach_in, "400": reach_400, "403": reach_403}, bad)
+    if bad or not all(reach_l):
         out.append(R.Result(engine="mirsym", name="order:HostFilter::call:gate", kind="order", status="unsupported" if bad else "vacuous",
                             detail=str([x.detail for x in bad[:1]] or [len(reach_in), len(reach_400), len(reach_403)])[:300], bodies=[b.name]))
     else:
-        out.append(R.decide("order:HostFilter::call:gate", "order", z3.Or(*viol) if viol else z3.BoolVal(False), [z3.Or(*reach_in), z3.Or(*reach_400), z3.Or(*reach_403)], bodies=[b.name],
+        out.append(R.decide("order:HostFilter::call:gate", "order", z3.Or(*viol) if viol else z3.BoolVal(False), [z3.Or(*v) for v in reach_l], bodies=[b.name],
                             desc="the inner service is called only after an authority was determined and the filter (if enabled) recognised it; otherwise the request ends in the filter (400 / 403)",
                             bounds="all paths of HostFilter::call", keydetail="gate",
                             extra={"models": ["Option::is_none_or(filter, closure): true without a filter, else the inlined closure, whose WhitelistedHosts::recognize call has a symbolic result", "from_http_request: recorded call with symbolic Option"]},
